@@ -59,7 +59,59 @@ def shards(tier):
         out.append({'level': 'U', 'tier': tier})
     for gid in universe.ALIAS_GIDS:
         out.append({'level': 'G', 'gid': gid, 'tier': tier})
+    for first in HIER_METHODS:
+        out.append({'level': 'I', 'first': first, 'tier': tier})
     return out
+
+
+# level I: every order in which one application meets the classes of a three-level hierarchy (what is remembered about
+# a class - member lists, handler tables - must not depend on which of its relatives was met first)
+HIER_METHODS = ['mb', 'ms', 'ml']
+
+
+def hier_program():
+    I, U = ['p', 'Integer', {}], ['p', 'Unicode', {}]
+    cl = [{'n': 'Base', 'fields': [['b1', I], ['b2', U]]}, {'n': 'Sub', 'base': 'Base', 'fields': [['s1', I]]},
+          {'n': 'Leaf', 'base': 'Sub', 'fields': [['t1', U], ['t2', I]]}]
+    ms = [{'n': n, 'args': [['x', ['c', c, {}]], ['z', I]], 'ret': ['c', c, {}]} for n, c in zip(HIER_METHODS, ('Base', 'Sub', 'Leaf'))]
+    return {'tns': universe.TNS, 'classes': cl, 'services': [{'n': 'S', 'methods': ms}]}
+
+
+def hier_value(mname, salt):
+    f = {'b1': salt, 'b2': 'b%d' % salt}
+    if mname in ('ms', 'ml'):
+        f['s1'] = salt + 10
+    if mname == 'ml':
+        f['t1'] = 't%d' % salt
+        f['t2'] = salt + 20
+    return tagged.Obj({'mb': 'Base', 'ms': 'Sub', 'ml': 'Leaf'}[mname], **f)
+
+
+def run_hier(shard, res, only=None):
+    import itertools
+    tier = shard.get('tier', 'quick')
+    program = hier_program()
+    res['cov']['programs'] += 1
+    depth = 3 if tier == 'quick' else 4
+    for rest in itertools.product(HIER_METHODS, repeat=depth - 1):
+        hist = [shard['first']] + list(rest)
+        if only is not None and only['hist'] != hist:
+            continue
+        for cfg in configs(tier):
+            if only is not None and only['cfg'] != cfg:
+                continue
+            h = harness.DictHarness(program, **cfg)
+            for step, mname in enumerate(hist):
+                v = hier_value(mname, step + 1)
+                casedoc = {'level': 'I', 'shard': shard, 'hist': hist, 'cfg': cfg, 'step': step}
+                oc = run_case(h, mname, [v, 7], v, {'site': 'I|%s|after-%s' % (mname, '+'.join(sorted(set(hist[:step]))) or 'nothing'), 'case': casedoc}, res)
+                res['evaluations'] += 1
+                res['outcomes'][oc] = res['outcomes'].get(oc, 0) + 1
+                if oc == 'ok':
+                    res['nontrivial'] += 1
+                else:
+                    break
+        res['cov']['call_order_histories'] = res['cov'].get('call_order_histories', 0) + 1
 
 
 FAMILY = [('Unsigned', 'int'), ('Integer', 'int'), ('Long', 'int'), ('Int', 'int'), ('Short', 'int'), ('Byte(', 'binary'),
@@ -182,7 +234,9 @@ def unicode_strings():
 def run_shard(shard):
     res = c01.new_res()
     tier = shard.get('tier', 'quick')
-    if shard['level'] == 'G':
+    if shard['level'] == 'I':
+        run_hier(shard, res)
+    elif shard['level'] == 'G':
         program = universe.alias_program(shard['gid'])
         res['cov']['programs'] += 1
         cases = c01.cases_G(shard['gid'], tier)
@@ -233,6 +287,9 @@ def replay(case):
     cfg = case['cfg']
     if case.get('build_only'):
         run_program(case['program'], [], res, [cfg])
+        return res['violations']
+    if case['level'] == 'I':
+        run_hier(case['shard'], res, only=case)
         return res['violations']
     if case['level'] == 'A':
         at = c01.atom_by_id(case['atom'])
